@@ -221,6 +221,52 @@ pub fn run_demux(cfg: &app::Cfg, pushes: &[Vec<u8>]) -> Vec<String> {
     ctx.trace
 }
 
+/// `demuxq`: as `demux`, for configurations with a construct script; also reports whether the
+/// changeset is empty when the last push returns
+pub fn run_demux_q(cfg: &app::Cfg, pushes: &[Vec<u8>]) -> Vec<String> {
+    use mpeg2ts_reader::demultiplex::DemuxContext;
+    let mut all: Vec<u8> = vec![];
+    for p in pushes {
+        all.extend_from_slice(p);
+    }
+    let mut ctx = app::HCtx::new(cfg.clone(), all.as_ptr() as usize, all.len());
+    let mut d = Demultiplex::new(&mut ctx);
+    let mut off = 0;
+    for p in pushes {
+        d.push(&mut ctx, &all[off..off + p.len()]);
+        off += p.len();
+    }
+    let pending = if ctx.filter_changeset().is_empty() { 0 } else { 1 };
+    let mut t = ctx.trace;
+    t.push(format!("pending={}", pending));
+    t
+}
+
+fn op_demux_q(cfg: &str, pushes: &[Vec<u8>]) -> String {
+    let cfg = match app::parse_cfg(cfg) {
+        Some(c) => c,
+        None => return "bad-op".into(),
+    };
+    if cfg.bypass_crc != cfg!(fuzzing) {
+        return "SKIP".into();
+    }
+    run_demux_q(&cfg, pushes).join(" ")
+}
+
+fn op_cuts_q(cfg: &str, stream: &[u8], masks: &str) -> String {
+    let cfg = match app::parse_cfg(cfg) {
+        Some(c) => c,
+        None => return "bad-op".into(),
+    };
+    let whole = run_demux_q(&cfg, &[stream.to_vec()]).join(" ");
+    let mut out = vec![];
+    for m in masks.split(',') {
+        let t = run_demux_q(&cfg, &split_by_mask(stream, m)).join(" ");
+        out.push(if t == whole { "same" } else { "diff" });
+    }
+    out.join(",")
+}
+
 fn op_demux(cfg: &str, pushes: &[Vec<u8>]) -> String {
     let cfg = match app::parse_cfg(cfg) {
         Some(c) => c,
@@ -494,6 +540,11 @@ fn step(rest: &str) -> String {
         }
         ("retain", 3) => op_retain(args[0], &unhex(args[1]), args[2].parse::<usize>().unwrap_or(8).max(2)),
         ("cuts", 3) => op_cuts(args[0], &unhex(args[1]), args[2]),
+        ("cutsq", 3) => op_cuts_q(args[0], &unhex(args[1]), args[2]),
+        ("demuxq", n) if n >= 1 => {
+            let pk: Vec<Vec<u8>> = args[1..].iter().map(|h| unhex(h)).collect();
+            op_demux_q(args[0], &pk)
+        }
         ("demux", n) if n >= 1 => {
             let pk: Vec<Vec<u8>> = args[1..].iter().map(|h| unhex(h)).collect();
             op_demux(args[0], &pk)
